@@ -80,6 +80,21 @@ Qed.
 Lemma pure_hidden_right_nil ts : pure_eq (get_hidden_right ts None) "".
 Proof. intro sn. reflexivity. Qed.
 
+Lemma pure_hidden_right_all ts k : no_hidden ts -> p_idx k < length ts -> pure_eq (get_hidden_right_all ts (Some k)) "".
+Proof.
+  intros Hn Hk sn. unfold get_hidden_right_all, hidden_right.
+  destruct (Nat.ltb_spec (p_idx k) (length ts)) as [_|Hge]; [|lia].
+  rewrite take_hidden_nil; [reflexivity|]. apply Forall_skipn'. apply number_from_nh. exact Hn.
+Qed.
+
+Lemma pure_hidden_right_all_nil ts : pure_eq (get_hidden_right_all ts None) "".
+Proof. intro sn. reflexivity. Qed.
+
+Lemma pure_hidden_before_close ts k : no_hidden ts -> p_idx k < length ts -> pure_eq (get_hidden_before_close ts (Some k)) "".
+Proof.
+  intros Hn Hk. unfold get_hidden_before_close. eapply pure_bind; [apply pure_hidden_left; assumption|]. apply pure_ret.
+Qed.
+
 (* ------------------------------------------------------------------ visit = nc *)
 Lemma pure_guarded site o (pre : string) :
   pure_eq (if non_nil o then (do x <- deref site o; ret (pre ++ x)) else ret EmptyString) (opt_text pre o).
@@ -97,10 +112,14 @@ Qed.
 Lemma pure_visit_field_attribute a : pure_eq (visit_field_attribute a) (nc_field_attribute a).
 Proof. destruct a; cbn [visit_field_attribute nc_field_attribute]; try apply pure_ret. apply pure_visit_padding_attr. Qed.
 
-Lemma pure_visit_field_attributes l : pure_eq (visit_field_attributes l) (nc_field_attributes l).
+Lemma pure_visit_field_attributes ts l :
+  no_hidden ts -> forallb (fun a => span_ok (length ts) (fa_span a)) l = true ->
+  pure_eq (visit_field_attributes ts l) (nc_field_attributes l).
 Proof.
-  induction l as [|a r IH]; cbn [visit_field_attributes nc_field_attributes]; [apply pure_ret|].
-  eapply pure_bind; [apply pure_visit_field_attribute|]. eapply pure_bind; [exact IH|]. apply pure_ret.
+  intro Hn. induction l as [|a r IH]; cbn [visit_field_attributes nc_field_attributes forallb]; intro H; [apply pure_ret|].
+  apply andb_true_iff in H. destruct H as [Ha Hr]. apply span_ok_lt in Ha. destruct Ha as [H1 _].
+  eapply pure_bind; [apply pure_hidden_left; assumption|].
+  eapply pure_bind; [apply pure_visit_field_attribute|]. eapply pure_bind; [apply IH; exact Hr|]. apply pure_ret.
 Qed.
 
 Lemma pure_visit_length_field_decl d : pure_eq (visit_length_field_decl d) (nc_length_field_decl d).
@@ -139,10 +158,12 @@ Proof.
 Qed.
 
 Lemma pure_visit_match_field_decl ts d :
-  no_hidden ts -> forallb (ok_match_pair (length ts)) (mf_pairs d) = true ->
+  no_hidden ts -> ok_match_decl (length ts) d = true ->
   pure_eq (visit_match_field_decl ts d) (nc_match_field_decl d).
 Proof.
-  intros Hn H. unfold visit_match_field_decl. eapply pure_bind; [apply pure_visit_match_pairs; assumption|]. apply pure_ret.
+  unfold ok_match_decl. intros Hn H. apply andb_true_iff in H. destruct H as [Hsp H]. apply span_ok_lt in Hsp. destruct Hsp as [_ H2].
+  unfold visit_match_field_decl. eapply pure_bind; [apply pure_visit_match_pairs; assumption|].
+  eapply pure_bind; [apply pure_hidden_before_close; assumption|]. apply pure_ret.
 Qed.
 
 Lemma nc_field_def_iner sp rep sp' name open fields close comma :
@@ -183,9 +204,11 @@ Proof.
      [eapply pure_bind; [apply pure_hidden_left; assumption|];
       eapply pure_bind; [|eapply pure_bind; [apply pure_hidden_right; assumption|apply pure_ret]]
      |]); cbn [field_body].
-  - rewrite visit_iner_object_field_eq. eapply pure_bind; [|apply pure_ret].
+  - apply andb_true_iff in Hin. destruct Hin as [Hisp Hin]. apply span_ok_lt in Hisp. destruct Hisp as [_ Hc].
+    rewrite visit_iner_object_field_eq.
+    eapply pure_bind; [|eapply pure_bind; [apply pure_hidden_before_close; assumption|apply pure_ret]].
     instantiate (1 := nc_field_defs fields).
-    clear H1 H2. induction fields as [|f r IHr]; cbn [visit_field_defs nc_field_defs]; [apply pure_ret|].
+    clear H1 H2 Hc. induction fields as [|f r IHr]; cbn [visit_field_defs nc_field_defs]; [apply pure_ret|].
     cbn [forallb] in Hin. apply andb_true_iff in Hin. destruct Hin as [Hf Hr].
     inversion IH as [|x l Hx Hl]; subst.
     eapply pure_bind; [apply Hx; exact Hf|]. eapply pure_bind; [apply IHr; assumption|]. apply pure_ret.
@@ -203,14 +226,15 @@ Proof.
 Qed.
 
 Lemma pure_visit_field_with_attr ts f :
-  no_hidden ts -> ok_field_def (length ts) (fw_def f) = true -> pure_eq (visit_field_with_attr ts f) (nc_field_with_attr f).
+  no_hidden ts -> ok_field_with_attr (length ts) f = true -> pure_eq (visit_field_with_attr ts f) (nc_field_with_attr f).
 Proof.
-  intros Hn H. unfold visit_field_with_attr. eapply pure_bind; [apply pure_visit_field_attributes|].
+  unfold ok_field_with_attr. intros Hn H. apply andb_true_iff in H. destruct H as [Ha H].
+  unfold visit_field_with_attr. eapply pure_bind; [apply pure_visit_field_attributes; assumption|].
   eapply pure_bind; [apply pure_visit_field_def; assumption|]. apply pure_ret.
 Qed.
 
 Lemma pure_visit_fields_with_attr ts fs :
-  no_hidden ts -> forallb (fun f => ok_field_def (length ts) (fw_def f)) fs = true ->
+  no_hidden ts -> forallb (ok_field_with_attr (length ts)) fs = true ->
   pure_eq (visit_fields_with_attr ts fs) (nc_fields_with_attr fs).
 Proof.
   intro Hn. induction fs as [|f r IH]; cbn [visit_fields_with_attr nc_fields_with_attr forallb]; intro H; [apply pure_ret|].
@@ -224,6 +248,7 @@ Proof.
   unfold ok_packet_def. intros Hn H. apply andb_true_iff in H. destruct H as [Hsp Hf]. apply span_ok_lt in Hsp. destruct Hsp as [H1 H2].
   unfold visit_packet_def. eapply pure_bind; [apply pure_hidden_left; assumption|].
   eapply pure_bind; [apply pure_visit_fields_with_attr; assumption|].
+  eapply pure_bind; [apply pure_hidden_before_close; assumption|].
   eapply pure_bind; [apply pure_hidden_right; assumption|]. apply pure_ret.
 Qed.
 
@@ -251,19 +276,34 @@ Proof.
   unfold ok_option_def. intros Hn H. apply andb_true_iff in H. destruct H as [Hsp Hd]. apply span_ok_lt in Hsp. destruct Hsp as [H1 H2].
   unfold visit_option_def. eapply pure_bind; [apply pure_hidden_left; assumption|].
   eapply pure_bind; [apply pure_visit_option_decls; assumption|].
+  eapply pure_bind; [apply pure_hidden_before_close; assumption|].
   eapply pure_bind; [apply pure_hidden_right; assumption|]. apply pure_ret.
 Qed.
 
-Lemma pure_visit_meta_items items : pure_eq (visit_meta_items items) (nc_meta_items items).
+Lemma pure_visit_meta_items ts items :
+  no_hidden ts -> forallb (fun i => span_ok (length ts) (meta_item_span i)) items = true ->
+  pure_eq (visit_meta_items ts items) (nc_meta_items items).
 Proof.
-  induction items as [|i r IH]; cbn [visit_meta_items nc_meta_items]; [apply pure_ret|].
-  apply pure_bind with (a := nc_meta_item i);
-    [destruct i; cbn [nc_meta_item]; [apply pure_visit_meta_decl|apply pure_visit_ref_meta_decl]|].
-  eapply pure_bind; [exact IH|]. apply pure_ret.
+  intro Hn. induction items as [|i r IH]; cbn [visit_meta_items nc_meta_items forallb]; intro H; [apply pure_ret|].
+  apply andb_true_iff in H. destruct H as [Hi Hr]. apply span_ok_lt in Hi. destruct Hi as [H1 H2].
+  eapply pure_ext.
+  - eapply pure_bind; [apply pure_hidden_left; assumption|].
+    apply pure_bind with (a := nc_meta_item i);
+      [destruct i; cbn [nc_meta_item]; [apply pure_visit_meta_decl|apply pure_visit_ref_meta_decl]|].
+    eapply pure_bind; [apply pure_hidden_right; assumption|].
+    eapply pure_bind; [apply IH; exact Hr|]. apply pure_ret.
+  - cbn [append]. rewrite append_nil_r. reflexivity.
 Qed.
 
-Lemma pure_visit_meta_def d : pure_eq (visit_meta_def d) (nc_meta_def d).
-Proof. unfold visit_meta_def. eapply pure_bind; [apply pure_visit_meta_items|]. apply pure_ret. Qed.
+Lemma pure_visit_meta_def ts d :
+  no_hidden ts -> ok_meta_def (length ts) d = true -> pure_eq (visit_meta_def ts d) (nc_meta_def d).
+Proof.
+  unfold ok_meta_def. intros Hn H. apply andb_true_iff in H. destruct H as [Hsp Hi]. apply span_ok_lt in Hsp. destruct Hsp as [H1 H2].
+  unfold visit_meta_def. eapply pure_bind; [apply pure_hidden_left; assumption|].
+  eapply pure_bind; [apply pure_visit_meta_items; assumption|].
+  eapply pure_bind; [apply pure_hidden_before_close; assumption|].
+  eapply pure_bind; [apply pure_hidden_right; assumption|]. apply pure_ret.
+Qed.
 
 Lemma pure_visit_definitions ts ds :
   no_hidden ts -> forallb (ok_definition (length ts)) ds = true -> pure_eq (visit_definitions ts ds) (nc_definitions ds).
@@ -272,7 +312,7 @@ Proof.
   apply andb_true_iff in H. destruct H as [Hd Hr].
   apply pure_bind with (a := nc_definition d); [|eapply pure_bind; [apply IH; exact Hr|apply pure_ret]].
   destruct d as [x|x|x]; cbn [ok_definition nc_definition] in *;
-    [apply pure_visit_packet_def; assumption|apply pure_visit_meta_def|apply pure_visit_option_def; assumption].
+    [apply pure_visit_packet_def; assumption|apply pure_visit_meta_def; assumption|apply pure_visit_option_def; assumption].
 Qed.
 
 Theorem pure_visit_packet ts t :
@@ -282,10 +322,11 @@ Proof.
   unfold visit_packet. eapply pure_ext.
   - eapply pure_bind; [apply pure_hidden_left; [assumption|apply inr_lt; exact H1]|].
     eapply pure_bind; [apply pure_visit_definitions; assumption|].
-    eapply pure_bind; [|apply pure_ret].
-    instantiate (1 := EmptyString).
-    destruct (pk_stop t) as [k|]; [apply pure_hidden_right; [assumption|apply inr_lt; exact H2]|apply pure_hidden_right_nil].
-  - cbn [append]. rewrite append_nil_r. reflexivity.
+    destruct (pk_stop t) as [k|].
+    + eapply pure_bind; [apply pure_hidden_right; [assumption|apply inr_lt; exact H2]|].
+      eapply pure_bind; [apply pure_hidden_right_all; [assumption|apply inr_lt; exact H2]|]. apply pure_ret.
+    + eapply pure_bind; [apply pure_hidden_right_nil|]. eapply pure_bind; [apply pure_hidden_right_all_nil|]. apply pure_ret.
+  - cbn [append]. rewrite !append_nil_r. reflexivity.
 Qed.
 
 Theorem fmt_pt_comment_free ts t :
@@ -345,20 +386,19 @@ Proof.
   unfold nc_ref_meta_decl. cbn [e_ref_meta_decl rm_typ rm_name rm_doc ek p_text]. rewrite opt_text_erase. reflexivity.
 Qed.
 
-Lemma items_of_type_erase ty l : items_of_type ty (e_key_list l) = items_of_type ty l.
+Lemma key_items_text_erase l : map p_text (key_items (e_key_list l)) = map p_text (key_items l).
 Proof.
-  unfold items_of_type, list_items. cbn [e_key_list li_first li_rest].
+  unfold key_items, list_items. cbn [e_key_list li_first li_rest].
   destruct l as [sp o f rest c]. cbn [li_first li_rest].
-  assert (H : forall r, map p_text (filter (fun k => Nat.eqb (p_type k) ty) (map snd (map e_pair r)))
-                      = map p_text (filter (fun k => Nat.eqb (p_type k) ty) (map snd r))).
-  { induction r as [|[a b] r IH]; [reflexivity|]. cbn [map filter snd e_pair fst ek p_type].
-    destruct (Nat.eqb (p_type b) ty); cbn [map p_text ek]; rewrite IH; reflexivity. }
-  cbn [filter ek p_type]. destruct (Nat.eqb (p_type f) ty); cbn [map ek p_text]; rewrite H; reflexivity.
+  assert (H : forall r, map p_text (filter is_item (map snd (map e_pair r))) = map p_text (filter is_item (map snd r))).
+  { induction r as [|[a b] r IH]; [reflexivity|]. cbn [map filter snd e_pair fst].
+    change (is_item (ek b)) with (is_item b). destruct (is_item b); cbn [map p_text ek]; rewrite IH; reflexivity. }
+  cbn [filter]. change (is_item (ek f)) with (is_item f). destruct (is_item f); cbn [map ek p_text]; rewrite H; reflexivity.
 Qed.
 
 Lemma match_key_text_erase k : match_key_text (e_match_key k) = match_key_text k.
 Proof.
-  destruct k as [t|t|l]; try reflexivity. cbn [e_match_key match_key_text]. rewrite !items_of_type_erase. reflexivity.
+  destruct k as [t|t|l]; try reflexivity. cbn [e_match_key match_key_text]. rewrite key_items_text_erase. reflexivity.
 Qed.
 
 Lemma nc_match_pair_erase p : nc_match_pair (e_match_pair p) = nc_match_pair p.
